@@ -453,8 +453,110 @@ def row_writers(b: Builder) -> list[tuple[str, str]]:
     return out
 
 
+class _Sym:
+    """Tiny symbolic evaluator for the separator logic of Output.as_keyvalue / Output.parse.  One instance per *world*
+    (as_keyvalue: self.comma_sep true/false; parse: the ESC separator occurs in the value / does not).  Values:
+    ('bool', b) ('str', s) ('value',) = prop.value, ('split', ch) = prop.value.split(ch), None = unknown.
+    Statements: simple assignments to names and if/else (the branch whose test evaluates to a known bool is followed;
+    an unknown test fails closed).  Anything else -> TranslateError."""
+
+    def __init__(self, where: str, esc: str, atoms: dict[str, tuple], has_esc: bool | None = None) -> None:
+        self.where, self.esc, self.atoms, self.has_esc = where, esc, atoms, has_esc
+        self.env: dict[str, tuple | None] = {}
+
+    def ev(self, e: ast.AST) -> tuple | None:
+        src = ast.unparse(e)
+        if src in self.atoms:
+            return self.atoms[src]
+        if isinstance(e, ast.Constant):
+            if isinstance(e.value, bool):
+                return ('bool', e.value)
+            if isinstance(e.value, str):
+                return ('str', e.value)
+            return None
+        if isinstance(e, ast.Name):
+            if e.id in self.env:
+                return self.env[e.id]
+            if e.id == 'OUTPUT_SEP':
+                return ('str', self.esc)
+            return None
+        if isinstance(e, ast.Attribute):
+            if e.attr == 'SEP' and isinstance(e.value, ast.Name) and e.value.id in ('self', 'cls', 'Output'):
+                return ('str', self.esc)         # class attribute SEP = OUTPUT_SEP (checked by output_seps)
+            if e.attr == 'value' and isinstance(e.value, ast.Name) and e.value.id == 'prop':
+                return ('value',)
+            return None
+        if isinstance(e, ast.UnaryOp) and isinstance(e.op, ast.Not):
+            v = self.ev(e.operand)
+            return ('bool', not v[1]) if v and v[0] == 'bool' else None
+        if isinstance(e, ast.BoolOp):
+            vs = [self.ev(x) for x in e.values]
+            if any(v is None or v[0] != 'bool' for v in vs):
+                return None
+            bs = [v[1] for v in vs]       # type: ignore[index]
+            return ('bool', all(bs) if isinstance(e.op, ast.And) else any(bs))
+        if isinstance(e, ast.IfExp):
+            t = self.ev(e.test)
+            if not t or t[0] != 'bool':
+                return None
+            return self.ev(e.body if t[1] else e.orelse)
+        if isinstance(e, ast.Compare) and len(e.ops) == 1:
+            a, b = self.ev(e.left), self.ev(e.comparators[0])
+            op = e.ops[0]
+            if isinstance(op, (ast.In, ast.NotIn)) and b == ('value',) and a and a[0] == 'str' and self.has_esc is not None:
+                if a[1] != self.esc:
+                    return None                # membership of another character: not decided by the world
+                return ('bool', self.has_esc if isinstance(op, ast.In) else not self.has_esc)
+            if isinstance(op, (ast.Is, ast.IsNot, ast.Eq, ast.NotEq)) and a and b and a[0] == b[0] == 'bool':
+                same = a[1] == b[1]
+                return ('bool', same if isinstance(op, (ast.Is, ast.Eq)) else not same)
+            return None
+        if isinstance(e, ast.Call) and isinstance(e.func, ast.Attribute) and e.func.attr == 'split' and len(e.args) == 1 \
+                and not e.keywords and self.ev(e.func.value) == ('value',):
+            ch = self.ev(e.args[0])
+            return ('split', ch[1]) if ch and ch[0] == 'str' and len(ch[1]) == 1 else None
+        if isinstance(e, ast.Call) and ast.unparse(e.func) == 'bool' and len(e.args) == 1:
+            v = self.ev(e.args[0])
+            return v if v and v[0] == 'bool' else None
+        return None
+
+    def run(self, stmts: list[ast.stmt]) -> None:
+        for s in stmts:
+            if isinstance(s, ast.Expr) and isinstance(s.value, ast.Constant):
+                continue
+            if isinstance(s, (ast.Assign, ast.AnnAssign)):
+                tg = s.targets if isinstance(s, ast.Assign) else [s.target]
+                if s.value is None:
+                    continue
+                if len(tg) == 1 and isinstance(tg[0], ast.Name):
+                    self.env[tg[0].id] = self.ev(s.value)
+                    continue
+                if len(tg) == 1 and isinstance(tg[0], ast.Tuple) and isinstance(s.value, ast.Tuple) \
+                        and len(tg[0].elts) == len(s.value.elts) and all(isinstance(t, ast.Name) for t in tg[0].elts):
+                    vals = [self.ev(v) for v in s.value.elts]
+                    for t, v in zip(tg[0].elts, vals):
+                        self.env[t.id] = v        # type: ignore[attr-defined]
+                    continue
+                raise TranslateError(f'{self.where}:{s.lineno}: assignment shape in the separator logic')
+            if isinstance(s, ast.If):
+                t = self.ev(s.test)
+                if not t or t[0] != 'bool':
+                    raise TranslateError(f'{self.where}:{s.lineno}: test `{ast.unparse(s.test)}` is not decided by the separator in use')
+                self.run(s.body if t[1] else s.orelse)
+                continue
+            raise TranslateError(f'{self.where}:{s.lineno}: statement {type(s).__name__} in the separator logic')
+
+
+def _prefix_until(stmts: list[ast.stmt], stop: type) -> tuple[list[ast.stmt], ast.stmt]:
+    for i, s in enumerate(stmts):
+        if isinstance(s, stop):
+            return stmts[:i], s
+    raise TranslateError(f'no {stop.__name__} statement found')
+
+
 def output_seps(tree: ast.Module, funcs: dict[str, ast.FunctionDef]) -> dict:
-    """Separator characters of Output.as_keyvalue / Output.parse and the order of the fields."""
+    """Separator characters of Output.as_keyvalue / Output.parse and the order of the fields.  The separator logic of
+    both methods is *evaluated* (class _Sym) in the two possible worlds, not matched textually."""
     esc = None
     for n in tree.body:
         tg = n.targets[0] if isinstance(n, ast.Assign) else n.target if isinstance(n, ast.AnnAssign) else None
@@ -466,17 +568,27 @@ def output_seps(tree: ast.Module, funcs: dict[str, ast.FunctionDef]) -> dict:
                 esc = int(v.args[0].value)
     if esc is None:
         raise TranslateError('OUTPUT_SEP: a one-character constant is expected')
+    # class attribute Output.SEP must be OUTPUT_SEP
+    ocls = next((n for n in tree.body if isinstance(n, ast.ClassDef) and n.name == 'Output'), None)
+    sep_attr = [n for n in (ocls.body if ocls else []) if isinstance(n, (ast.Assign, ast.AnnAssign))
+                and ast.unparse(n.targets[0] if isinstance(n, ast.Assign) else n.target) == 'SEP']
+    if len(sep_attr) != 1 or sep_attr[0].value is None or ast.unparse(sep_attr[0].value) != 'OUTPUT_SEP':
+        raise TranslateError('Output.SEP = OUTPUT_SEP expected')
     kv = funcs['Output.as_keyvalue']
-    sep_def = [n for n in ast.walk(kv) if isinstance(n, ast.Assign) and ast.unparse(n.targets[0]) == 'sep']
-    if len(sep_def) != 1 or not isinstance(sep_def[0].value, ast.IfExp):
-        raise TranslateError('Output.as_keyvalue: sep = A if self.comma_sep else B expected')
-    ie = sep_def[0].value
-    if ast.unparse(ie.test) != 'self.comma_sep' or not (isinstance(ie.body, ast.Constant) and isinstance(ie.body.value, str) and len(ie.body.value) == 1) \
-            or ast.unparse(ie.orelse) not in ('self.SEP', 'OUTPUT_SEP'):
-        raise TranslateError(f'Output.as_keyvalue: separator choice {ast.unparse(ie)}')
-    w_comma = ord(ie.body.value)
-    rets = [n for n in ast.walk(kv) if isinstance(n, ast.Return) and n.value is not None]
-    pieces = T.flatten('Output.as_keyvalue', rets[0].value)
+    pre, ret = _prefix_until(kv.body, ast.Return)
+    sepnames = T.sep_locals(kv)
+    if len(sepnames) != 1:
+        raise TranslateError(f'Output.as_keyvalue: one separator variable expected, found {sorted(sepnames)}')
+    wsep = {}
+    for comma in (True, False):
+        sy = _Sym('Output.as_keyvalue', chr(esc), {'self.comma_sep': ('bool', comma)})
+        sy.run(pre)
+        v = sy.env.get(next(iter(sepnames)))
+        if not v or v[0] != 'str' or len(v[1]) != 1:
+            raise TranslateError('Output.as_keyvalue: the separator is not a known character')
+        wsep[comma] = ord(v[1])
+    w_comma, w_esc = wsep[True], wsep[False]
+    pieces = T.flatten('Output.as_keyvalue', ret.value)       # type: ignore[attr-defined]
     r = T._parse_line('Output.as_keyvalue', T._split_lines(pieces)[0])
     if r[0] != 'kv':
         raise TranslateError('Output.as_keyvalue: not a keyvalue line')
@@ -489,40 +601,77 @@ def output_seps(tree: ast.Module, funcs: dict[str, ast.FunctionDef]) -> dict:
             cur.append(p.field if p.kind == 'ip' else 'lit:' + p.text)
     worder.append(cur)
     canon = {'self.target': 'target', 'self.exp_in()': 'input', 'self.params': 'params', 'self.delay': 'delay', 'self.times': 'times'}
-    if any(len(x) != 1 or x[0] not in canon for x in worder):
+
+    def canon_of(x: str) -> str | None:
+        for k, v in canon.items():
+            if x == k or re.fullmatch(r'[A-Za-z_\.]+\(' + re.escape(k) + r'\)', x):      # e.g. conv_kv(self.delay)
+                return v
+        return None
+    if any(len(x) != 1 or canon_of(x[0]) is None for x in worder):
         raise TranslateError(f'Output.as_keyvalue: value fields {worder}')
-    w_fields = [canon[x[0]] for x in worder]
-    # reader
+    w_fields = [canon_of(x[0]) for x in worder]
+    # reader: evaluate the statements before the `try` in both worlds
     ps = funcs['Output.parse']
-    src = ast.unparse(ps)
-    first_if = next((n for n in ps.body if isinstance(n, ast.If)), None)
-    if first_if is None or ast.unparse(first_if.test) != 'OUTPUT_SEP in prop.value':
-        raise TranslateError('Output.parse: `if OUTPUT_SEP in prop.value` expected')
-    if 'vals = prop.value.split(OUTPUT_SEP)' not in ast.unparse(first_if.body[1] if len(first_if.body) > 1 else first_if.body[0]):
-        raise TranslateError('Output.parse: split on OUTPUT_SEP expected')
-    else_split = [n for n in first_if.orelse if isinstance(n, ast.Assign) and ast.unparse(n.targets[0]) == 'vals']
-    m = re.fullmatch(r"prop\.value\.split\('(.)'\)", ast.unparse(else_split[0].value)) if else_split else None
-    if not m:
-        raise TranslateError('Output.parse: else-branch split')
-    r_comma = ord(m.group(1))
-    sep_flags = (ast.unparse(first_if.body[0]), ast.unparse(first_if.orelse[0]))
-    if sep_flags != ('sep = False', 'sep = True'):
-        raise TranslateError(f'Output.parse: comma_sep flags {sep_flags}')
-    unpack = [n for n in ast.walk(ps) if isinstance(n, ast.Assign) and isinstance(n.targets[0], ast.Tuple) and ast.unparse(n.value) == 'vals']
-    if len(unpack) != 2:
-        raise TranslateError('Output.parse: two unpackings of vals expected')
-    u1 = [ast.unparse(e) for e in unpack[0].targets[0].elts]
-    u2 = [ast.unparse(e) for e in unpack[1].targets[0].elts]
-    if u2 != [u1[0], u1[1], '*param_lst', u1[3], u1[4]] or f"{u1[2]} = '{chr(r_comma)}'.join(param_lst)" not in src:
-        raise TranslateError(f'Output.parse: recombination of extra separators {u2}')
-    mg = re.search(r'sep and len\(vals\) (>=|>) (\d+)', src)
-    if not mg:
-        raise TranslateError('Output.parse: recombination guard')
-    recombine_from = int(mg.group(2)) + (1 if mg.group(1) == '>' else 0)      # smallest number of pieces that is recombined
-    # which constructor argument each unpacked variable feeds
+    pre, tr = _prefix_until(ps.body, ast.Try)
     ctor = [n for n in ast.walk(ps) if isinstance(n, ast.Call) and ast.unparse(n.func) == 'cls']
     if len(ctor) != 1:
         raise TranslateError('Output.parse: constructor call')
+    flag_e = next((k.value for k in ctor[0].keywords if k.arg == 'comma_sep'), None)
+    if flag_e is None:
+        raise TranslateError('Output.parse: comma_sep is not passed to the constructor')
+    assert isinstance(tr, ast.Try)
+    unpack1 = [n for n in tr.body if isinstance(n, ast.Assign) and isinstance(n.targets[0], ast.Tuple)]
+    if len(tr.body) != 1 or len(unpack1) != 1:
+        raise TranslateError('Output.parse: the try body must be the exact unpacking of the pieces')
+    u1 = [ast.unparse(e) for e in unpack1[0].targets[0].elts]          # type: ignore[attr-defined]
+    world: dict[bool, tuple] = {}
+    syms: dict[bool, _Sym] = {}
+    for has in (True, False):
+        sy = _Sym('Output.parse', chr(esc), {}, has_esc=has)
+        sy.run(pre)
+        sp, fl = sy.ev(unpack1[0].value), sy.ev(flag_e)
+        if not sp or sp[0] != 'split':
+            raise TranslateError('Output.parse: the unpacked pieces are not prop.value.split(<known character>)')
+        if not fl or fl[0] != 'bool':
+            raise TranslateError('Output.parse: comma_sep flag is not decided by the separator in use')
+        world[has] = (ord(sp[1]), fl[1])
+        syms[has] = sy
+    r_esc, flag_esc = world[True]
+    r_comma, flag_comma = world[False]
+    # the recombination of extra separators in the except handler
+    if len(tr.handlers) != 1:
+        raise TranslateError('Output.parse: one except handler expected')
+    guard = next((n for n in tr.handlers[0].body if isinstance(n, ast.If)), None)
+    if guard is None or not (isinstance(guard.test, ast.BoolOp) and isinstance(guard.test.op, ast.And) and len(guard.test.values) == 2):
+        raise TranslateError('Output.parse: recombination guard `<comma form> and len(pieces) > N` expected')
+    flag_t = [x for x in guard.test.values if not isinstance(x, ast.Compare)]
+    cmp_t = [x for x in guard.test.values if isinstance(x, ast.Compare)]
+    if len(flag_t) != 1 or len(cmp_t) != 1 or syms[False].ev(flag_t[0]) != ('bool', True) or syms[True].ev(flag_t[0]) != ('bool', False):
+        raise TranslateError('Output.parse: the recombination must be guarded by the comma form')
+    c = cmp_t[0]
+    left, op, right = c.left, c.ops[0], c.comparators[0]
+    if isinstance(left, ast.Constant):        # N < len(v)  ->  len(v) > N
+        left, right = right, left
+        op = {ast.Lt: ast.Gt, ast.LtE: ast.GtE}.get(type(op), type(None))()
+    if not (isinstance(left, ast.Call) and ast.unparse(left.func) == 'len' and len(left.args) == 1
+            and (syms[False].ev(left.args[0]) or ('?',))[0] == 'split' and isinstance(right, ast.Constant) and isinstance(right.value, int)
+            and isinstance(op, (ast.Gt, ast.GtE))):
+        raise TranslateError(f'Output.parse: recombination guard {ast.unparse(c)}')
+    recombine_from = right.value + (1 if isinstance(op, ast.Gt) else 0)      # smallest number of pieces that is recombined
+    unpack2 = [n for n in guard.body if isinstance(n, ast.Assign) and isinstance(n.targets[0], ast.Tuple)]
+    if len(unpack2) != 1 or (syms[False].ev(unpack2[0].value) or ('?',))[0] != 'split':
+        raise TranslateError('Output.parse: the starred unpacking of the pieces is expected in the recombination branch')
+    u2 = [ast.unparse(e) for e in unpack2[0].targets[0].elts]          # type: ignore[attr-defined]
+    star = [x for x in u2 if x.startswith('*')]
+    if len(u1) != 5 or len(star) != 1 or u2 != [u1[0], u1[1], star[0], u1[3], u1[4]]:
+        raise TranslateError(f'Output.parse: recombination of extra separators {u2}')
+    rejoin = [n for n in guard.body if isinstance(n, ast.Assign) and ast.unparse(n.targets[0]) == u1[2]]
+    ok = len(rejoin) == 1 and isinstance(rejoin[0].value, ast.Call) and isinstance(rejoin[0].value.func, ast.Attribute) \
+        and rejoin[0].value.func.attr == 'join' and len(rejoin[0].value.args) == 1 and ast.unparse(rejoin[0].value.args[0]) == star[0][1:]
+    jc = syms[False].ev(rejoin[0].value.func.value) if ok else None          # type: ignore[attr-defined]
+    if not ok or not jc or jc[0] != 'str' or len(jc[1]) != 1 or ord(jc[1]) != r_comma:
+        raise TranslateError('Output.parse: the extra pieces must be re-joined with the separator they were split on')
+    # which constructor argument each unpacked variable feeds
     init_args = [a.arg for a in funcs['Output.__init__'].args.args][1:]
     canon_init = {'targ': 'target', 'inp': 'input', 'param': 'params', 'delay': 'delay', 'times': 'times', 'out': 'output'}
     feeds: dict[str, str] = {}
@@ -532,7 +681,8 @@ def output_seps(tree: ast.Module, funcs: dict[str, ast.FunctionDef]) -> dict:
             if nm_ in u1 and a in canon_init:
                 feeds[nm_] = canon_init[a]
     r_fields = [feeds.get(v, '?') for v in u1]
-    return {'esc': esc, 'w_comma': w_comma, 'r_comma': r_comma, 'w_fields': w_fields, 'r_fields': r_fields, 'n_exact': len(u1),
+    return {'esc': esc, 'w_comma': w_comma, 'w_esc': w_esc, 'r_comma': r_comma, 'r_esc': r_esc, 'flag_esc': flag_esc,
+            'flag_comma': flag_comma, 'w_fields': w_fields, 'r_fields': r_fields, 'n_exact': len(u1),
             'recombine_from': recombine_from}
 
 
@@ -558,6 +708,12 @@ def gen_fields() -> tuple[str, dict]:
              f'Definition gen_out_esc : N := {o["esc"]}.',
              f'Definition gen_out_write_comma : N := {o["w_comma"]}.',
              f'Definition gen_out_read_comma : N := {o["r_comma"]}.',
+             '(* separator written when comma_sep is false; character split on, and comma_sep flag given to the constructor, when',
+             '   the value holds ESC / does not *)',
+             f'Definition gen_out_write_esc : N := {o["w_esc"]}.',
+             f'Definition gen_out_read_esc : N := {o["r_esc"]}.',
+             f'Definition gen_out_flag_when_esc : bool := {"true" if o["flag_esc"] else "false"}.',
+             f'Definition gen_out_flag_when_comma : bool := {"true" if o["flag_comma"] else "false"}.',
              'Definition gen_out_write_order : list N := [' + '; '.join(str(order.index(x)) if x in order else '99' for x in o['w_fields']) + '].',
              'Definition gen_out_read_order : list N := [' + '; '.join(str(order.index(x)) if x in order else '99' for x in o['r_fields']) + '].',
              '(* number of pieces unpacked exactly; smallest number of comma-separated pieces that is recombined into five *)',
